@@ -55,6 +55,18 @@ Theorem C12_no_raise_means_none_at_stop : forall a R2 fuel k g ls,
 Proof. exact asplit_ok_complete. Qed.
 Print Assumptions C12_no_raise_means_none_at_stop.
 
+(* Fuel is always sufficient: for adaptive_step = p/q in (0,1) and adaptive_stop > 0 the
+   range reaches the stop after at most p*sd reductions, so with more fuel than that no
+   OutOfFuel leaf can appear - the previous theorem then holds unconditionally:
+   SubnetOversizeException is raised EXACTLY when a still-oversize group has reached a
+   range at or below adaptive_stop. *)
+Theorem C12_fuel_sufficient : forall a R2,
+  0 < a_p a -> a_p a < a_q a -> 0 < a_sn a -> 0 < a_sd a ->
+  forall fuel k g ls, (Z.to_nat (a_p a * a_sd a) < fuel + k)%nat ->
+  asplit fuel a R2 k g = Ok ls -> ~ In OutOfFuel ls.
+Proof. exact asplit_no_out_of_fuel. Qed.
+Print Assumptions C12_fuel_sufficient.
+
 (* non-vacuity / raise behaviour on a concrete oversize group (limit 1, step 1/2):
    three sources competing for 0..2; stop at 1/4 of the range -> split succeeds;
    stop at 3/4 of the range -> raise at the first level. *)
